@@ -111,16 +111,30 @@ def eq_fields(repo: Repo, fi: FuncInfo) -> Tuple[Set[str], List[Tuple[ast.AST, s
     self_n, other_n = fi.params[0], fi.params[1]
     fields: Set[str] = set()
     odd: List[Tuple[ast.AST, str]] = []
+    pairs: List[Tuple[ast.AST, ast.AST, ast.AST]] = []
     for node in walk_no_nested(fi.node):
         if isinstance(node, ast.Compare) and len(node.ops) == 1 and isinstance(node.ops[0], (ast.Eq, ast.NotEq)):
-            l, r = attr_chain(node.left), attr_chain(node.comparators[0])
+            a, b = node.left, node.comparators[0]
+            if isinstance(a, ast.Tuple) and isinstance(b, ast.Tuple) and len(a.elts) == len(b.elts):
+                # (self.f, self.g) == (other.f, other.g): componentwise
+                pairs += [(node, x, y) for x, y in zip(a.elts, b.elts)]
+            else:
+                pairs.append((node, a, b))
+    for node, a, b in pairs:
+        if True:
+            l, r = attr_chain(a), attr_chain(b)
+            if l is None or r is None or len(l) != 2 or len(r) != 2 or not {l[0], r[0]} <= {self_n, other_n}:
+                # a comparison this extraction does not understand (sorted(..) of a field, a key helper, ...)
+                if any(isinstance(x, ast.Name) and x.id in (self_n, other_n) for x in ast.walk(a)) and any(isinstance(x, ast.Name) and x.id in (self_n, other_n) for x in ast.walk(b)):
+                    fields.add("<unrecognised>")
             if l and r and len(l) == 2 and len(r) == 2 and {l[0], r[0]} <= {self_n, other_n}:
                 if l[0] != r[0] and l[1] == r[1]:
                     fields.add(l[1])
                 elif l[0] == r[0]:
-                    odd.append((node, f"compares {unparse(node.left)} with {unparse(node.comparators[0])}: both sides are the same object's field"))
+                    odd.append((node, f"compares {unparse(a)} with {unparse(b)}: both sides are the same object's field"))
                 else:
                     odd.append((node, f"compares different fields {l[1]} and {r[1]}"))
+    for node in walk_no_nested(fi.node):
         if isinstance(node, ast.Call):
             ch = call_name(node)
             if ch and len(ch) == 2 and ch[1] == "__eq__" and ch[0] in VALUE_BASES | {"super()"}:
@@ -511,6 +525,8 @@ def _r3(ctx: Ctx, repo: Repo, ci: ClassInfo, hf: FuncInfo, info: "HashInfo") -> 
         return
     if hfields <= eqf:
         ctx.ok("C08-R3", f"{ci.where}.__hash__" if hf.cls is not ci else hf.where, f"hash fields {sorted(hfields)} subset of compared fields {sorted(eqf)}", hf.node, hf)
+    elif "<unrecognised>" in eqf:
+        raise AnalysisError(f"{ef.where if ef else ci.where}: __eq__ contains a comparison whose operands are not plain fields; which fields equality looks at is not decided")
     else:
         ctx.violation("C08-R3", hf, hf.node,
                       f"__hash__ reads {sorted(hfields - eqf)} which {ef.where if ef else 'the inherited __eq__'} does not compare: equal objects may hash differently")
@@ -1077,6 +1093,8 @@ def rule_r6_semantic(ctx: Ctx, ci: ClassInfo, own: List[str]) -> None:
                     kfields.add(ch[1])
         if kfields == eqf:
             ctx.ok("C08-R6", ci.where, f"ordering key fields {sorted(kfields)} = equality fields: a<=b and b<=a iff a==b")
+        elif "<unrecognised>" in eqf:
+            raise AnalysisError(f"{ef.where}: __eq__ contains a comparison whose operands are not plain fields; consistency of the order with == is not decided")
         else:
             ctx.violation("C08-R6", first, first.node, f"ordering key fields {sorted(kfields)} differ from equality fields {sorted(eqf)}: order inconsistent with ==")
     elif tuple_sub:
